@@ -103,13 +103,11 @@ FirstFailure ==
   LET bad == {i \in 1..Len(req) : out[req[i]] # "ok"}
   IN IF bad = {} THEN "ok" ELSE out[req[CHOOSE i \in bad : \A j \in bad : i <= j]]
 
-(* select { <-r.ready ; <-ctx.Done() } for the midx-th requested file; after the last one the
-   result is h.Error() if anything was reported, else the first task error                *)
+(* select { <-r.ready ; <-ctx.Done() } for the midx-th requested file *)
 MainWaitReady ==
   /\ mpc = "wait" /\ out[req[midx]] # "pending"
   /\ IF midx = Len(req)
-       THEN /\ mpc' = "ret" /\ midx' = midx
-            /\ mres' = IF reports # {} THEN "cycle" ELSE FirstFailure
+       THEN /\ mpc' = "ret" /\ midx' = midx /\ UNCHANGED mres
        ELSE /\ midx' = midx + 1 /\ UNCHANGED <<mpc, mres>>
   /\ UNCHANGED <<cfgvars, created, pc, idx, blocked, stack, checked, sem, holding, out, reports, ctxDone, cancels>>
 
@@ -118,11 +116,14 @@ MainWaitCtx ==
   /\ mpc' = "ret" /\ mres' = "ctx"
   /\ UNCHANGED <<cfgvars, created, pc, idx, blocked, stack, checked, sem, holding, out, reports, midx, ctxDone, cancels>>
 
-(* return ...; deferred cancel() *)
+(* after the last wait the result is h.Error() if anything has been reported BY THEN (tasks that are
+   still running may report between the last wake-up and this read), else the first task error;
+   return ...; deferred cancel() *)
 MainReturn ==
   /\ mpc = "ret"
+  /\ mres' = IF mres = "ctx" THEN "ctx" ELSE IF reports # {} THEN "cycle" ELSE FirstFailure
   /\ mpc' = "done" /\ ctxDone' = TRUE
-  /\ UNCHANGED <<cfgvars, created, pc, idx, blocked, stack, checked, sem, holding, out, reports, midx, mres, cancels>>
+  /\ UNCHANGED <<cfgvars, created, pc, idx, blocked, stack, checked, sem, holding, out, reports, midx, cancels>>
 
 (* the caller cancels its context at an arbitrary moment (possibly after Compile has returned,
    when it no longer changes anything) *)
@@ -331,7 +332,7 @@ TypeOK ==
 SemInv == /\ sem >= 0 /\ sem <= par
           /\ sem + Cardinality({f \in Files : holding[f]}) = par
 
-Returned == mpc \in {"ret", "done"}
+Returned == mpc = "done"
 
 (* C06: a cycle error is reported only for a real cycle of the input graph *)
 NoFalseCycle == \A r \in reports : RealCycle(r[1], r[2])
